@@ -162,11 +162,21 @@ def style_table(path):
 
 
 def format_templates(path):
-    """every literal format!(\"...\") template of a file, in source order: (pieces, specs)"""
+    """every literal format!(\"...\") template of a file, in source order: (pieces, specs, name) where name is
+    <enclosing fn>_<ordinal of the template inside that fn>, so that an edit elsewhere in the file does not rename it"""
     text = open(path).read()
     out = []
+    fns = [(mm.start(), mm.group(1)) for mm in re.finditer(r"\bfn\s+(\w+)", text)]
+    per_fn = {}
     for m in re.finditer(r'format!\(\s*"((?:[^"\\]|\\.)*)"', text):
         lit = m.group(1)
+        fn = "top"
+        for pos, nm in fns:
+            if pos < m.start():
+                fn = nm
+        k = per_fn.get(fn, 0)
+        per_fn[fn] = k + 1
+        name = "%s_%d" % (fn, k)
         # Rust string escapes that occur in these files: \" and \n
         lit = lit.replace('\\"', '"').replace("\\n", "\n")
         pieces, specs, cur, i = [], [], "", 0
@@ -195,7 +205,7 @@ def format_templates(path):
             cur += c
             i += 1
         pieces.append(cur)
-        out.append((pieces, specs))
+        out.append((pieces, specs, name))
     return out
 
 
@@ -239,11 +249,14 @@ def generate():
     out.append("")
     for tag, fname in (("sb", "script_buffer.rs"), ("lw", "linker_writer.rs")):
         tpls = format_templates(os.path.join(SRC, fname))
-        out.append("(* the literal format! templates of %s, in source order: pieces around the arguments *)" % fname)
-        out.append("Definition fmt_%s : list (list string) :=" % tag)
-        out.append("  [" + ";\n   ".join("[" + "; ".join(coq_str_nl(p) for p in pieces) + "]" for pieces, specs in tpls) + "].")
-        out.append("Definition fmt_%s_specs : list (list string) :=" % tag)
-        out.append("  [" + ";\n   ".join("[" + "; ".join(coq_str(x) for x in specs) + "]" for pieces, specs in tpls) + "].")
+        out.append("(* the literal format! templates of %s: pieces around the arguments and the format specs, named after" % fname)
+        out.append("   the enclosing function and the ordinal inside it *)")
+        for pieces, specs, name in tpls:
+            out.append("Definition t_%s_%s : list string := [%s]." % (tag, name, "; ".join(coq_str_nl(p) for p in pieces)))
+            out.append("Definition t_%s_%s_spec : list string := [%s]." % (tag, name, "; ".join(coq_str(x) for x in specs)))
+        out.append("(* all of them, in source order *)")
+        out.append("Definition fmt_%s : list (list string) := [%s]." % (tag, "; ".join("t_%s_%s" % (tag, n) for _, _, n in tpls)))
+        out.append("Ltac unfold_tpl_%s := unfold %s in *." % (tag, ", ".join("t_%s_%s" % (tag, n) for _, _, n in tpls)))
         out.append("")
     v = version(os.path.join(SRC, "version.rs"))
     out.append("Definition version_major : N := %d%%N." % v[0])
